@@ -16,6 +16,28 @@ REQUEST_QUERIES = {"get_stats", "get_mean", "get_median", "get_percentiles", "ge
 COUNTS = [1, 2, 5, 9, 10, 50, 99, 100, 500, 999, 1000, 5000, 9999, 10000, 10**6]
 
 
+def record_key_agreement(chk, rid, met):
+    """GlobalStats.tasks() lists, and GlobalStats.metrics(task) selects by, the SAME record key: the task name, falling back to the operation name (shared with C20:
+    the comparison pairs the records of both races through these two)."""
+    from sa import pat
+    gsm = met.methods(met.cls("GlobalStats"))
+    mt, tk = gsm.get("metrics"), gsm.get("tasks")
+    if mt is None or tk is None:
+        raise AnchorMissing("GlobalStats.metrics / GlobalStats.tasks")
+    keyexprs = []
+    for f in (mt, tk):
+        for n in ast.walk(f):
+            if isinstance(n, ast.Call) and last_attr(n.func) == "get" and n.args and source.is_const(n.args[0], "task"):
+                keyexprs.append((f.name, n))
+    ok = len(keyexprs) == 2 and all(len(n.args) == 2 and isinstance(n.args[1], ast.Subscript) and source.is_const(n.args[1].slice, "operation") for _, n in keyexprs)
+    chk.ob(rid, "tasks() and metrics() use the same record key: task name, else operation", ok, mt, f"{[(f_, u(n)) for f_, n in keyexprs]}", key="esrally/metrics.py:GlobalStats:record-key")
+    tp = params_of(mt)[1]
+    rets = [n for n in walk_body(mt) if isinstance(n, ast.Return) and not (isinstance(n.value, ast.Constant) and n.value.value is None)]
+    ok = bool(rets) and all(pat.guarded(r, f"E_rec.get('task', E_rec['operation']) == {tp}") is not None and len(pat.fact_nodes(r)) == 1 for r in rets)
+    chk.ob(rid, "metrics(task) returns the record whose key EQUALS the requested task (no other match rule)", ok, rets[0] if rets else mt,
+           f"selected under {[u(f_) for r in rets for f_ in pat.fact_nodes(r)]}", key="esrally/metrics.py:GlobalStats.metrics:equality")
+
+
 def run(chk):
     repo = chk.repo
     met = repo.module(_M)
@@ -87,9 +109,13 @@ def run(chk):
              "a sample count at a threshold (10, 100, ...) gets no / the wrong percentile set")
     ps = met.func("percentiles_for_sample_size")
     p0 = params_of(ps)[0]
-    names = {x.id for x in ast.walk(ps) if isinstance(x, ast.Name)} - {p0, "AssertionError"}
+    from sa.classes import is_logging_stmt
+    names = {x.id for st_ in ast.walk(ps) if isinstance(st_, ast.stmt) and not is_logging_stmt(st_) and not isinstance(st_, (ast.FunctionDef, ast.If, ast.For, ast.While, ast.With, ast.Try))
+             for x in ast.walk(st_) if isinstance(x, ast.Name)} | {x.id for st_ in ast.walk(ps) if isinstance(st_, (ast.If, ast.While)) for x in ast.walk(st_.test) if isinstance(x, ast.Name)}
+    names -= {p0, "AssertionError"}
     chk.ob("O8.2", "reads nothing but its parameter", not names, ps, f"other names: {sorted(names)}" if names else "")
     prev = None
+    seen_lists = []
     for cnt in [0] + COUNTS:
         def atom(n, env):
             try:
@@ -110,6 +136,27 @@ def run(chk):
         good = ok and vals[-1] == 100 and vals == sorted(vals) and (cnt == 1 or 50 in vals) and (prev is None or set(prev) <= set(vals))
         chk.ob("O8.2", f"count {cnt} -> {vals}", bool(good), ps, "" if good else "missing / not ending with 100 / lacks 50 / not monotone", key=f"{_M}:percentiles_for_sample_size:{cnt}")
         prev = vals if ok else prev
+        if ok:
+            seen_lists.append(vals)
+
+    # the key under which a percentile is stored and looked up must tell the percentiles apart (writer and both reporters use the same encoder)
+    enc = met.func("encode_float_key")
+    allp = sorted({v for vs in seen_lists for v in vs}) if seen_lists else []
+    er = [n for n in walk_body(enc) if isinstance(n, ast.Return)]
+    if len(er) == 1 and allp:
+        try:
+            keys = {p_: ev(er[0].value, {params_of(enc)[0]: p_}) for p_ in allp}
+            inj = len(set(keys.values())) == len(allp) and all(isinstance(k_, str) and "." not in k_ for k_ in keys.values())
+            clash = sorted(p_ for p_ in allp if list(keys.values()).count(keys[p_]) > 1)
+            chk.ob("O8.2", "percentile keys are distinct (and dot-free) over the whole percentile table", inj, enc,
+                   f"{keys}" + ("" if inj else f" — {clash} share a key: the later one overwrites the earlier and a percentile is lost / reported with the wrong value"),
+                   key=f"{_M}:encode_float_key:injective")
+        except CannotEval as e:
+            chk.unknown("O8.2", f"percentile key encoder is not evaluable over the percentile table: {e}", enc)
+    else:
+        chk.unknown("O8.2", "percentile key encoder has no single return expression", enc)
+    uses = [c for c in source.package_calls(repo, "encode_float_key")]
+    chk.ob("O8.2", "percentile keys are written and read through the same encoder", len(uses) >= 3, enc, f"{len(uses)} call site(s)")
 
     # ---- O8.3 attribute / key agreement ------------------------------------------------------------------------------------------------------------------
     chk.rule("O8.3", "results class: each attribute is initialised from the key of the same name; as_dict exposes exactly those attributes; every attribute the calculator assigns exists there; "
@@ -158,17 +205,7 @@ def run(chk):
         sd = gm["single_latency"].args.defaults
         ok = ok and sd and isinstance(sd[-1], ast.Constant) and sd[-1].value == "latency"
     chk.ob("O8.3", "each op-metrics field is computed for the metric of the same name", ok, aoc[0] if aoc else call, "")
-    mt, tk = gsm.get("metrics"), gsm.get("tasks")
-    keyexprs = []
-    for f in (mt, tk):
-        for n in ast.walk(f):
-            if isinstance(n, ast.Call) and last_attr(n.func) == "get" and n.args and source.is_const(n.args[0], "task"):
-                keyexprs.append((f.name, n))
-    ok = len(keyexprs) == 2 and all(len(n.args) == 2 and isinstance(n.args[1], ast.Subscript) and source.is_const(n.args[1].slice, "operation") for _, n in keyexprs)
-    chk.ob("O8.3", "tasks() and metrics() use the same record key: task name, else operation", ok, mt, f"{[(f_, u(n)) for f_, n in keyexprs]}")
-    cmpn = [n for n in walk_body(mt) if isinstance(n, ast.Compare)]
-    ok = len(cmpn) == 1 and isinstance(cmpn[0].ops[0], ast.Eq) and keyexprs and any(cmpn[0].left is n or cmpn[0].comparators[0] is n for _, n in keyexprs) and params_of(mt)[1] in (u(cmpn[0].left), u(cmpn[0].comparators[0]))
-    chk.ob("O8.3", "metrics(task) returns the record whose key EQUALS the task", ok, cmpn[0] if cmpn else mt, u(cmpn[0]) if cmpn else "" + ("" if ok else " — a membership / fallback test can return another task's record"))
+    record_key_agreement(chk, "O8.3", met)
 
     # ---- O8.4 race file agreement ------------------------------------------------------------------------------------------------------------------------
     chk.rule("O8.4", "every key Race.from_dict subscripts is written unconditionally by as_dict; every optional key it reads is written (possibly conditionally); each key is fed into the constructor "
